@@ -226,3 +226,55 @@ pub(crate) fn mut_vec_map_in_place_up1() {
 pub(crate) fn mut_vec_map_in_place_dn1() {
     ob_mut_vec_map_in_place::<St<1, false, true, true, true>>(64);
 }
+
+/// Chunks acquired earlier stay usable (C03): with the current chunk too full for a request and the base allocator
+/// refusing new memory, a request that fits into an EMPTY later chunk is served from that chunk (which is reset
+/// first, whatever stale position it carries) - the slow path must not ask for memory it already has.
+pub(crate) fn ob_later_chunk_reuse<S>()
+where
+    S: BumpAllocatorSettings,
+    LogAlloc: crate::BaseAllocator<S::GuaranteedAllocated>,
+{
+    let mut a = Arena::<LogAlloc, S>::build(2, 64);
+    a.havoc_at(0);
+    let g0 = a.geo(0);
+    let g1 = a.geo(1);
+    let pos0 = a.snaps()[0].pos;
+    let layout = any_layout(48, 3);
+    // does not fit into what is left of chunk 0 ...
+    let left0 = if S::UP { g0.content_end - pos0 } else { pos0 - g0.content_start };
+    kani::assume(layout.size() > left0);
+    // ... but fits into chunk 1 when that is empty, with room for any alignment padding
+    kani::assume(layout.size() + layout.align() <= g1.content_end - g1.content_start);
+    unsafe { BUDGET = 0 };
+    let r = a.bump.alloc::<AllocError>(layout);
+    unsafe { BUDGET = usize::MAX };
+    kani::assert(r.is_ok(), "C03.alloc.retained_later_chunk_is_reused_instead_of_asking_for_memory");
+    if let Ok(p) = r {
+        let addr = p.as_ptr() as usize;
+        kani::assert(addr >= g1.content_start && addr + layout.size() <= g1.content_end && al(addr, layout.align()), "C01.alloc.block_inside_the_later_chunk");
+        kani::assert(a.cur_index() == 1 && unsafe { N_GRANTS } == 2, "C03.alloc.no_new_chunk");
+        // the later chunk was used from its start: nothing of its stale contents stays allocated
+        let p1 = a.snaps()[1].pos;
+        let used1 = if S::UP { p1 - g1.content_start } else { g1.content_end - p1 };
+        kani::assert(used1 < layout.size() + layout.align() + S::MIN_ALIGN, "C03.alloc.later_chunk_was_reset_before_use");
+    }
+    kani::assert(a.wf(), "C10.alloc.wf");
+    kani::cover!(layout.size() > 16, "larger-than-the-first-chunk");
+}
+
+#[kani::proof]
+#[kani::unwind(4)]
+pub(crate) fn later_chunk_reuse_up1() {
+    ob_later_chunk_reuse::<SUp1>();
+}
+#[kani::proof]
+#[kani::unwind(4)]
+pub(crate) fn later_chunk_reuse_dn8() {
+    ob_later_chunk_reuse::<SDn8>();
+}
+#[kani::proof]
+#[kani::unwind(4)]
+pub(crate) fn later_chunk_reuse_dn1() {
+    ob_later_chunk_reuse::<St<1, false, true, true, true>>();
+}
